@@ -400,7 +400,13 @@ func (g *GroupWorld) spawnPod(s *Stream, edge bool) *v1.Pod {
 		}
 		p.Spec.Containers = append(p.Spec.Containers, mkc(fmt.Sprintf("c%d", k), cpu, mem))
 	}
-	switch s.Pick(7, 1, 1, 1, 1) {
+	switch s.Pick(7, 1, 1, 1, 1, 1) {
+	case 5: // native sidecar: an init container with restartPolicy Always
+		always := v1.ContainerRestartPolicyAlways
+		sc := mkc("sidecar", "400m", "256Mi")
+		sc.RestartPolicy = &always
+		p.Spec.InitContainers = []v1.Container{sc, mkc("init", "100m", "64Mi")}
+		shape += "+init-sidecar"
 	case 4: // no single init container is the largest in both resources
 		p.Spec.InitContainers = []v1.Container{mkc("init-cpu", "6", "16Mi"), mkc("init-mem", "20m", "24Gi"), mkc("init-mid", "1", "1Gi")}
 		shape += "+init-cross"
@@ -574,6 +580,16 @@ func (g *GroupWorld) schedule() {
 			dur, _ := time.ParseDuration(p.Annotations["sim/duration"])
 			name := p.Name
 			w.after(dur, "pod-done", func() {
+				if cur, ok := w.kube.pods[name]; ok && cur.DeletionTimestamp == nil && len(name)%3 == 0 {
+					// graceful termination first: deletionTimestamp set, still Running and still on the node for a while
+					term := cur.DeepCopy()
+					now := metav1.NewTime(time.Now().Truncate(time.Second))
+					term.DeletionTimestamp = &now
+					w.kube.putPod(term, "")
+					w.stats.World["pod-terminating"]++
+					w.after(time.Duration(1+len(name)%3)*w.cfg.ScanInterval, "pod-gone", func() { w.kube.deletePod(name) })
+					return
+				}
 				if cur, ok := w.kube.pods[name]; ok {
 					// completed pods stay in the API for a while in a terminal phase (excluded by the informer's selector)
 					done := cur.DeepCopy()
@@ -703,6 +719,34 @@ func (g *GroupWorld) tick() {
 		if w.cfg.OddObjects && s.Chance(0.1) {
 			g.oddPod(s)
 		}
+		if s.Chance(0.03) && !g.cfg.IsDefault { // a static (mirror) pod that selects this group: a group pod like any other
+			if ns := g.groupNodes(); len(ns) > 0 {
+				p := g.spawnPod(s, false)
+				np := p.DeepCopy()
+				np.Annotations["kubernetes.io/config.source"] = "file"
+				np.Spec.NodeName = ns[s.Intn(len(ns))].Name
+				np.Status.Phase = v1.PodRunning
+				np.Status.Conditions = []v1.PodCondition{{Type: v1.PodScheduled, Status: v1.ConditionTrue}}
+				w.kube.putPod(np, "")
+				name := np.Name
+				w.after(time.Duration(4+s.Intn(20))*w.cfg.ScanInterval, "static-pod-gone", func() { w.kube.deletePod(name) })
+				w.stats.Shapes["pod:static-with-group-selector"]++
+			}
+		}
+		if s.Chance(0.04) && !w.cfg.NoMislabel && !g.cfg.IsDefault { // pod names are reused across groups (re-created jobs)
+			name := fmt.Sprintf("shared-%d", s.Intn(3))
+			if _, exists := w.kube.pods[name]; exists {
+				w.kube.deletePod(name)
+			} else {
+				p := g.spawnPod(s, false)
+				np := p.DeepCopy()
+				w.kube.deletePod(p.Name)
+				np.Name = name
+				np.UID = types.UID(fmt.Sprintf("uid-%x-%d-%s-%d", w.ch.Seed, w.execID, name, g.podSeq))
+				w.kube.putPod(np, g.name)
+				w.stats.World["pod-name-reused-across-groups"]++
+			}
+		}
 		if s.Chance(0.06) { // in-place pod resize: same pod (same UID), new requests
 			if pods := g.groupPods(); len(pods) > 0 {
 				p := pods[s.Intn(len(pods))]
@@ -818,6 +862,14 @@ func (g *GroupWorld) operatorAction(s *Stream, prefer string) {
 	}
 	switch name {
 	case "cordon":
+		if v%5 == 4 { // not a cordon: the kubelet stops reporting, Ready turns False/Unknown (or recovers)
+			upd(func(c *v1.Node) {
+				st := []v1.ConditionStatus{v1.ConditionFalse, v1.ConditionUnknown, v1.ConditionTrue}[(v>>4)%3]
+				c.Status.Conditions = []v1.NodeCondition{{Type: v1.NodeReady, Status: st}}
+			})
+			w.stats.World["node-ready-condition-changed"]++
+			break
+		}
 		upd(func(c *v1.Node) { c.Spec.Unschedulable = true })
 	case "uncordon":
 		// prefer a cordoned node
@@ -921,7 +973,13 @@ func (g *GroupWorld) operatorAction(s *Stream, prefer string) {
 		}
 	case "asg-edit":
 		asg := w.aws.asgs[g.cfg.ASG]
-		switch v % 5 {
+		switch v % 6 {
+		case 5: // pin the group: min = max = desired (a valid ASG definition)
+			asg.Min, asg.Max = asg.Desired, asg.Desired
+			if asg.Max < 1 {
+				asg.Max = 1
+			}
+			g.ev("asg-pinned")
 		case 0:
 			if asg.Max > asg.Min+1 && asg.Max-1 >= asg.Desired {
 				asg.Max--
